@@ -255,7 +255,13 @@ def finish(check, explanation, assumptions, not_decided, extra_cov=None):
         seen.add(inst["key"])
         print("KNOWN-FINDING: property=%s %s [%s at %s]" % (check.prop, kk["what"], inst["key"], inst["where"]))
     os.makedirs(os.path.join(VERIF, ".build", "replay"), exist_ok=True)
-    for i, inst in enumerate(viol):
+    vseen = set()
+    uniq = []
+    for inst in viol:
+        if inst["key"] not in vseen:
+            vseen.add(inst["key"])
+            uniq.append(inst)
+    for i, inst in enumerate(uniq):
         rp = os.path.join(VERIF, ".build", "replay", "%s-%d.json" % (check.prop, i))
         with open(rp, "w") as fh:
             json.dump({"property": check.prop, "instance": inst, "rule_text": check.rules.get(inst["rule"], "")}, fh, indent=1)
